@@ -392,6 +392,8 @@ def conclude(ctx, mod, t0, evidence_path, args):
         cover_checks=len(covers), cover_ok=len([v for v in covers if v.result["verdict"] == "sat"]),
         cover_inconclusive=[v.name for v in cover_unknown],
         by_backend=by_backend, solver_seconds=round(solver_s, 2),
+        slowest_obligations=[{"obligation": v.name, "seconds": round(v.result.get("seconds", 0), 1), "backend": v.result.get("backend")}
+                             for v in sorted(ctx.vcs, key=lambda v: -v.result.get("seconds", 0))[:5]],
         refuted=[v.name for v in refuted], undecided=[v.name for v in undecided],
         known_findings=[{"id": k["id"], "what": k["what"]} for k, _, _ in known_hits],
         bounded_checks=[dict(name=b.name, bound=b.bound, cases=b.cases, failures=len(b.failures), note=b.note,
